@@ -18,6 +18,7 @@
 #include <hgraph/types/subgraph_wiring.h>
 #include <hgraph/types/wired_fn.h>
 
+#include <algorithm>
 #include <array>
 #include <map>
 #include <optional>
@@ -123,7 +124,8 @@ namespace
         if ((ticked && b.etick) || (woke && b.ewake))
         {
             const std::int64_t v = b.c + b.m * s + b.l * sum_valid;
-            out.set(Int{v});
+            if constexpr (requires { out.set(Int{v}); }) { out.set(Int{v}); }
+            else { static_cast<void>(out.add(Int{v})); }   // TSS<Int> output: publish v as a member
             g_ctx->out->line({27, us(now), inst, v});
         }
         if ((ticked && b.rtick) || (woke && b.rwake))
@@ -140,109 +142,119 @@ namespace
         return InSnap{v, in.modified(), v ? (std::int64_t)in.value() : 0};
     }
 
-    template <int S, int M> struct Body;
+    // SH = 0: scalar TS<Int> output;  SH = 1: TSS<Int> output (every emission adds a member)
+    template <int SH> struct OutShape { using type = TS<Int>; };
+    template <> struct OutShape<1> { using type = TSS<Int>; };
+    template <int SH> using OutS = typename OutShape<SH>::type;
 
-    template <int S>
-    struct Body<S, 0>
+    template <int S, int M, int SH> struct Body;
+
+    template <int S, int SH>
+    struct Body<S, 0, SH>
     {
         static constexpr auto name = "hgv_body0";
         static void           start(NodeScheduler sched, DateTime now) { body_start(S, sched, now); }
-        static void eval(NodeView node, NodeScheduler sched, DateTime now, State<Int> st, Out<TS<Int>> out)
+        static void eval(NodeView node, NodeScheduler sched, DateTime now, State<Int> st, Out<OutS<SH>> out)
         {
             body_eval(S, node, sched, now, st, out, {});
         }
     };
-    template <int S>
-    struct Body<S, 1>
+    template <int S, int SH>
+    struct Body<S, 1, SH>
     {
         static constexpr auto name = "hgv_body1";
         static void           start(NodeScheduler sched, DateTime now) { body_start(S, sched, now); }
-        static void eval(NodeView node, In<"i0", TS<Int>> i0, NodeScheduler sched, DateTime now, State<Int> st, Out<TS<Int>> out)
+        static void eval(NodeView node, In<"i0", TS<Int>> i0, NodeScheduler sched, DateTime now, State<Int> st, Out<OutS<SH>> out)
         {
             body_eval(S, node, sched, now, st, out, {snap(i0)});
         }
     };
-    template <int S>
-    struct Body<S, 2>
+    template <int S, int SH>
+    struct Body<S, 2, SH>
     {
         static constexpr auto name = "hgv_body2";
         static void           start(NodeScheduler sched, DateTime now) { body_start(S, sched, now); }
         static void eval(NodeView node, In<"i0", TS<Int>> i0, In<"i1", TS<Int>> i1, NodeScheduler sched, DateTime now,
-                         State<Int> st, Out<TS<Int>> out)
+                         State<Int> st, Out<OutS<SH>> out)
         {
             body_eval(S, node, sched, now, st, out, {snap(i0), snap(i1)});
         }
     };
-    template <int S>
-    struct Body<S, 3>
+    template <int S, int SH>
+    struct Body<S, 3, SH>
     {
         static constexpr auto name = "hgv_body3";
         static void           start(NodeScheduler sched, DateTime now) { body_start(S, sched, now); }
         static void eval(NodeView node, In<"i0", TS<Int>> i0, In<"i1", TS<Int>> i1, In<"i2", TS<Int>> i2, NodeScheduler sched,
-                         DateTime now, State<Int> st, Out<TS<Int>> out)
+                         DateTime now, State<Int> st, Out<OutS<SH>> out)
         {
             body_eval(S, node, sched, now, st, out, {snap(i0), snap(i1), snap(i2)});
         }
     };
 
-    // ---- branch graphs: (table slot S, number of outer ts args N, consumes the key K) ----
-    template <int S, int N, bool K> struct Br;
-    template <int S> struct Br<S, 0, false>
+    // ---- branch graphs: (table slot S, number of outer ts args N, consumes the key K, output shape SH) ----
+    template <int S, int N, bool K, int SH> struct Br;
+    template <int S, int SH> struct Br<S, 0, false, SH>
     {
-        static constexpr auto name = "hgv_br0";
-        static Port<TS<Int>>  compose(Wiring &w) { return wire<Body<S, 0>>(w); }
+        static constexpr auto  name = "hgv_br0";
+        static Port<OutS<SH>>  compose(Wiring &w) { return wire<Body<S, 0, SH>>(w); }
     };
-    template <int S> struct Br<S, 0, true>
+    template <int S, int SH> struct Br<S, 0, true, SH>
     {
-        static constexpr auto name = "hgv_brk0";
-        static Port<TS<Int>>  compose(Wiring &w, NamedPort<"key", TS<Int>> key) { return wire<Body<S, 1>>(w, Port<TS<Int>>{key}); }
+        static constexpr auto  name = "hgv_brk0";
+        static Port<OutS<SH>>  compose(Wiring &w, NamedPort<"key", TS<Int>> key) { return wire<Body<S, 1, SH>>(w, Port<TS<Int>>{key}); }
     };
-    template <int S> struct Br<S, 1, false>
+    template <int S, int SH> struct Br<S, 1, false, SH>
     {
-        static constexpr auto name = "hgv_br1";
-        static Port<TS<Int>>  compose(Wiring &w, Port<TS<Int>> a) { return wire<Body<S, 1>>(w, a); }
+        static constexpr auto  name = "hgv_br1";
+        static Port<OutS<SH>>  compose(Wiring &w, Port<TS<Int>> a) { return wire<Body<S, 1, SH>>(w, a); }
     };
-    template <int S> struct Br<S, 1, true>
+    template <int S, int SH> struct Br<S, 1, true, SH>
     {
-        static constexpr auto name = "hgv_brk1";
-        static Port<TS<Int>>  compose(Wiring &w, NamedPort<"key", TS<Int>> key, Port<TS<Int>> a)
+        static constexpr auto  name = "hgv_brk1";
+        static Port<OutS<SH>>  compose(Wiring &w, NamedPort<"key", TS<Int>> key, Port<TS<Int>> a)
         {
-            return wire<Body<S, 2>>(w, Port<TS<Int>>{key}, a);
+            return wire<Body<S, 2, SH>>(w, Port<TS<Int>>{key}, a);
         }
     };
-    template <int S> struct Br<S, 2, false>
+    template <int S, int SH> struct Br<S, 2, false, SH>
     {
-        static constexpr auto name = "hgv_br2";
-        static Port<TS<Int>>  compose(Wiring &w, Port<TS<Int>> a, Port<TS<Int>> b) { return wire<Body<S, 2>>(w, a, b); }
+        static constexpr auto  name = "hgv_br2";
+        static Port<OutS<SH>>  compose(Wiring &w, Port<TS<Int>> a, Port<TS<Int>> b) { return wire<Body<S, 2, SH>>(w, a, b); }
     };
-    template <int S> struct Br<S, 2, true>
+    template <int S, int SH> struct Br<S, 2, true, SH>
     {
-        static constexpr auto name = "hgv_brk2";
-        static Port<TS<Int>>  compose(Wiring &w, NamedPort<"key", TS<Int>> key, Port<TS<Int>> a, Port<TS<Int>> b)
+        static constexpr auto  name = "hgv_brk2";
+        static Port<OutS<SH>>  compose(Wiring &w, NamedPort<"key", TS<Int>> key, Port<TS<Int>> a, Port<TS<Int>> b)
         {
-            return wire<Body<S, 3>>(w, Port<TS<Int>>{key}, a, b);
+            return wire<Body<S, 3, SH>>(w, Port<TS<Int>>{key}, a, b);
         }
     };
 
-    template <int N, bool K, int... S>
+    template <int N, bool K, int SH, int... S>
     WiredFn pick_slot(int slot, std::integer_sequence<int, S...>)
     {
         WiredFn r{};
-        ((slot == S ? (r = fn<Br<S, N, K>>(), 0) : 0), ...);
+        ((slot == S ? (r = fn<Br<S, N, K, SH>>(), 0) : 0), ...);
         return r;
     }
-    WiredFn branch_fn(int nts, bool usekey, int slot)
+    template <int SH>
+    WiredFn branch_fn_sh(int nts, bool usekey, int slot)
     {
         auto seq = std::make_integer_sequence<int, NSLOT>{};
         switch (nts * 2 + (usekey ? 1 : 0))
         {
-            case 0: return pick_slot<0, false>(slot, seq);
-            case 1: return pick_slot<0, true>(slot, seq);
-            case 2: return pick_slot<1, false>(slot, seq);
-            case 3: return pick_slot<1, true>(slot, seq);
-            case 4: return pick_slot<2, false>(slot, seq);
-            default: return pick_slot<2, true>(slot, seq);
+            case 0: return pick_slot<0, false, SH>(slot, seq);
+            case 1: return pick_slot<0, true, SH>(slot, seq);
+            case 2: return pick_slot<1, false, SH>(slot, seq);
+            case 3: return pick_slot<1, true, SH>(slot, seq);
+            case 4: return pick_slot<2, false, SH>(slot, seq);
+            default: return pick_slot<2, true, SH>(slot, seq);
         }
+    }
+    WiredFn branch_fn(int nts, bool usekey, int slot, int shape)
+    {
+        return shape == 1 ? branch_fn_sh<1>(nts, usekey, slot) : branch_fn_sh<0>(nts, usekey, slot);
     }
 
     // ---- recording sink on the switch output ----
@@ -252,6 +264,22 @@ namespace
         static void           eval(In<"x", TS<Int>> x, DateTime now)
         {
             g_ctx->out->line({20, us(now), x.valid(), x.modified(), x.valid() ? (std::int64_t)x.value() : 0});
+        }
+    };
+
+    // recorder on a TSS<Int> switch output: value and delta of the cycle, each sorted
+    struct RecS
+    {
+        static constexpr auto name = "hgv_rec_set";
+        static void           eval(In<"x", TSS<Int>> x, DateTime now)
+        {
+            auto vals = x.values(); auto add = x.added(); auto rem = x.removed();
+            std::sort(vals.begin(), vals.end()); std::sort(add.begin(), add.end()); std::sort(rem.begin(), rem.end());
+            Line l{21, us(now), x.valid(), x.modified(), (std::int64_t)vals.size(), (std::int64_t)add.size(), (std::int64_t)rem.size()};
+            for (auto v : vals) { l.push_back(v); }
+            for (auto v : add) { l.push_back(v); }
+            for (auto v : rem) { l.push_back(v); }
+            g_ctx->out->line(l);
         }
     };
 
@@ -291,14 +319,14 @@ namespace
         Ctx ctx;
         ctx.out = &out;
         g_ctx   = &ctx;
-        std::int64_t start = 1, end = 10, nts = 1, reload = 0;
+        std::int64_t start = 1, end = 10, nts = 1, reload = 0, shape = 0;
         struct CaseEnt { std::int64_t key, slot, usekey; };
         std::vector<CaseEnt>   ents;
         std::optional<CaseEnt> dflt;
         for (const Line &l : c)
         {
             if (l[0] == 1 && l.size() >= 3) { start = l[1]; end = l[2]; }
-            else if (l[0] == 2 && l.size() >= 3) { nts = l[1]; reload = l[2]; }
+            else if (l[0] == 2 && l.size() >= 3) { nts = l[1]; reload = l[2]; shape = l.size() >= 4 ? l[3] : 0; }
             else if (l[0] == 3 && l.size() >= 4) { ents.push_back({l[1], l[2], l[3]}); }
             else if (l[0] == 4 && l.size() >= 3) { dflt = CaseEnt{0, l[1], l[2]}; }
             else if (l[0] == 5 && l.size() >= 14 && l[1] >= 0 && l[1] < NSLOT)
@@ -309,7 +337,7 @@ namespace
             }
             else if (l[0] == 6 && l.size() >= 4 && l[1] >= 0 && l[1] <= 2) { ctx.src[l[1]].emplace(l[2], l[3]); }
         }
-        if (nts < 0 || nts > 2 || (ents.empty() && !dflt) || start < 1 || start >= end || end > 100000) { out.line({29, 9}); return; }
+        if (nts < 0 || nts > 2 || shape < 0 || shape > 1 || (ents.empty() && !dflt) || start < 1 || start >= end || end > 100000) { out.line({29, 9}); return; }
         for (auto &e : ents) { if (e.slot < 0 || e.slot >= NSLOT) { out.line({29, 9}); return; } }
         if (dflt && (dflt->slot < 0 || dflt->slot >= NSLOT)) { out.line({29, 9}); return; }
 
@@ -318,23 +346,23 @@ namespace
             Wiring w;
             auto   key = wire<Src<0>>(w);
             stdlib::SwitchCases cases;
-            for (auto &e : ents) { cases.cases.push_back(stdlib::SwitchCase{Value{Int{e.key}}, branch_fn((int)nts, e.usekey != 0, (int)e.slot)}); }
-            if (dflt) { cases.default_branch = branch_fn((int)nts, dflt->usekey != 0, (int)dflt->slot); }
+            for (auto &e : ents) { cases.cases.push_back(stdlib::SwitchCase{Value{Int{e.key}}, branch_fn((int)nts, e.usekey != 0, (int)e.slot, (int)shape)}); }
+            if (dflt) { cases.default_branch = branch_fn((int)nts, dflt->usekey != 0, (int)dflt->slot, (int)shape); }
             cases.reload_on_ticked = reload != 0;
-            Port<TS<Int>> sw;
-            if (nts == 0) { sw = wire<stdlib::switch_>(w, key, cases).template as<TS<Int>>(); }
-            else if (nts == 1)
-            {
-                auto a = wire<Src<1>>(w);
-                sw     = wire<stdlib::switch_>(w, key, cases, a).template as<TS<Int>>();
-            }
-            else
-            {
+            auto wire_switch = [&]() {
+                if (nts == 0) { return wire<stdlib::switch_>(w, key, cases); }
+                if (nts == 1)
+                {
+                    auto a = wire<Src<1>>(w);
+                    return wire<stdlib::switch_>(w, key, cases, a);
+                }
                 auto a = wire<Src<1>>(w);
                 auto b = wire<Src<2>>(w);
-                sw     = wire<stdlib::switch_>(w, key, cases, a, b).template as<TS<Int>>();
-            }
-            wire<Rec>(w, sw);
+                return wire<stdlib::switch_>(w, key, cases, a, b);
+            };
+            auto sw = wire_switch();
+            if (shape == 1) { wire<RecS>(w, sw.template as<TSS<Int>>()); }
+            else { wire<Rec>(w, sw.template as<TS<Int>>()); }
             GraphBuilder gb = std::move(w).finish();
 
             Obs                  obs;
@@ -361,7 +389,16 @@ namespace
                 if (n.node_kind() != NodeKind::Nested) { continue; }
                 auto       o     = n.output(dt(end));
                 const bool valid = o.valid();
-                out.line({30, valid, valid ? o.value().checked_as<std::int64_t>() : 0, us(o.last_modified_time())});
+                if (shape == 1)
+                {
+                    std::vector<std::int64_t> vals;
+                    if (valid) { for (const auto &v : o.as_set().values()) { vals.push_back(v.template checked_as<std::int64_t>()); } }
+                    std::sort(vals.begin(), vals.end());
+                    Line l{31, valid, us(o.last_modified_time()), (std::int64_t)vals.size()};
+                    for (auto v : vals) { l.push_back(v); }
+                    out.line(l);
+                }
+                else { out.line({30, valid, valid ? o.value().checked_as<std::int64_t>() : 0, us(o.last_modified_time())}); }
             }
         }
         catch (const std::exception &e)
